@@ -21,6 +21,7 @@ mod wl;
 mod wl_enc;
 mod wl_hash;
 mod wl_pair;
+mod wl_conc;
 
 use serde_json::{json, Value};
 use std::fs::File;
@@ -203,6 +204,7 @@ fn main() {
             par_run(sessions, &out, &pos[1]);
             println!("{{\"sessions\": {}}}", n);
         }
+        "conc" => wl_conc::run(seed, &tier, &out),
         x => {
             eprintln!("unknown command {}", x);
             std::process::exit(2);
